@@ -326,6 +326,70 @@ def run(rep, tier):
         rep.saw(f, len(f.events))
         rep.ob("R19.5", "loader-filters-active|%s" % lname, nq >= 1 and nact >= nq,
                "%s runs %d row queries but filters status = ACTIVE in %d of them" % (lname, nq, nact), f.file + ":%d" % f.line)
+    # a suspended / revoked principal holds nothing - ownership included: the delegation branch of resolve_delegation confers on
+    # `parent.is_owner`, so an owner flag that survives suspension keeps every delegation the owner ever made alive
+    from lib import valueflow as _vf
+    EA = nx.N + "::governance::decision::EffectiveAuthority"
+    nown = 0
+    for f in prog.fns.values():
+        if not f.file.endswith("governance/decision.rs"):
+            continue
+        sites = [(b, st) for b in f.live_blocks() for st in f.stmts(b) if st[0] == "A" and st[2]["k"] == "agg" and st[2]["a"].get("def") == EA]
+        live = [l for l in range(len(f.locals)) if f.var_name(l) == "live" and f.locals[l] == "bool"]
+        if not sites or not live:
+            continue
+        try:
+            at = _vf.analyse(f)
+        except RuntimeError:
+            at = None
+        for (b, st) in sites:
+            nown += 1
+            rep.saw(f, 1)
+            idx = st[2]["a"]["fields"].index("is_owner") if "is_owner" in st[2]["a"].get("fields", []) else None
+            p_ = core.op_place(st[2]["ops"][idx]) if idx is not None else None
+            ok = False
+            if at is not None and p_ is not None and not p_.p:
+                ok = bool(at.get(b))
+                for envf in at.get(b, ()):
+                    env = dict(envf)
+                    _vf._apply_stmts(f, {"s": [x for x in f.blocks[b]["s"] if x is not st and f.blocks[b]["s"].index(x) < f.blocks[b]["s"].index(st)], "t": f.blocks[b]["t"]}, env)
+                    if not (env.get(p_.l) == 0 or any(env.get(l) == 1 for l in live)):
+                        ok = False
+            rep.ob("R19.5", "owner-only-while-live|%s" % prog.outer_fn(f).path.rsplit("::", 1)[1], ok,
+                   "EffectiveAuthority.is_owner can be true on a path where the principal is not active (`live` is false or was not consulted): "
+                   "delegations made by a suspended owner keep conferring", "%s:%d" % (f.file, st[3] if len(st) > 3 else f.line))
+    if nown < 2:
+        rep.fault("R19.5: only %d EffectiveAuthority constructions with a `live` flag found" % nown)
+
+    # ------------------------------------------------------------------ R19.6 page arithmetic over what the caller may see
+    rep.rule("R19.6", "journal readers (HISTORY / CHANGES) count and page the rows only after the visibility filter: a total or cursor computed over the "
+                      "unfiltered journal tells a restricted reader how many transactions (and whether an element) exist that it cannot read", floor=1)
+    nvis = 0
+    for f in prog.fns.values():
+        if "/meta/" not in f.file:
+            continue
+        vis = f.calls_named(r"::visible_changes$")
+        if not vis:
+            continue
+        nvis += 1
+        rep.saw(f, len(vis))
+        vrows = set()
+        for v in vis:
+            for a in v.args:
+                vrows |= {o[1] if o[0] == "arg" else id(o[1]) for o in f.slice_back_op(a, through=lambda ev: ev.callee in core.TRANSPARENT)
+                          if o[0] in ("arg", "call")}
+        lens = []
+        for e in f.calls_named(r"alloc::vec::Vec::<T, A>::len$|<\[T\]>::len$|core::slice::<impl \[T\]>::len$"):
+            src = {o[1] if o[0] == "arg" else id(o[1]) for o in f.slice_back_op(e.args[0], through=lambda ev: ev.callee in core.TRANSPARENT)
+                   if o[0] in ("arg", "call")}
+            if src & vrows:
+                lens.append(e)
+        early = [e for e in lens if not any(f.must_pass([v.block], [e.block]) for v in vis)]
+        rep.ob("R19.6", "count-after-visibility-filter|%s" % prog.outer_fn(f).path.rsplit("::", 1)[1], bool(lens) and not early,
+               "the number of journal rows is taken before visible_changes removed what the caller may not read (it feeds the page cursor / total)",
+               early[0].where() if early else vis[0].where())
+    if nvis < 1:
+        rep.fault("R19.6: no journal reader calling visible_changes found")
     return rep.finish(EXPLAIN)
 
 
